@@ -69,16 +69,19 @@ def qinputs {α : Type} : List (QMove α) → List α
 
 variable [DecidableEq ι]
 
-def sstep (c : SCfg ι μ) : PMove (Change ι μ) → SCfg ι μ
-  | .recv e => { c with p := pstep some c.p (.recv e) }
+/-- `T` is the transform of Pull's forwarder (`include`, then the read mask and the collection's
+equivalence: the identity here): `some` for a Pull without `WithInclude`, `includeChange f` (Include.lean)
+with it.  Seeds are not transformed (the seed list was built from the admitted items). -/
+def sstep (T : Change ι μ → Option (Change ι μ)) (c : SCfg ι μ) : PMove (Change ι μ) → SCfg ι μ
+  | .recv e => { c with p := pstep T c.p (.recv e) }
   | .take =>
     match c.seeds with
-    | [] => { c with p := pstep some c.p .take }
+    | [] => { c with p := pstep T c.p .take }
     | _ :: _ => c                                   -- still in the seed loop
   | .deliver =>
     match c.seeds with
     | s :: rest => { c with seeds := rest, seeded := c.seeded ++ [s] }
-    | [] => { c with p := pstep some c.p .deliver }
+    | [] => { c with p := pstep T c.p .deliver }
 
 /-- One iteration of PullID's `for change := range changes`: what it then holds in hand, and whether
 it returned (`defer close(send); defer cancel()`). -/
@@ -89,20 +92,21 @@ def pullIdAccept (i : ι) (d : Change ι μ) : Option μ × Bool :=
     | none => (none, true)                       -- "NewValue is nil, but not a REMOVE change": `return`
     | some v => (some v, false)                  -- `send <- &ValueChange{Value: change.NewValue …}`
 
-def qstep (i : ι) (c : QCfg ι μ) : QMove (Change ι μ) → QCfg ι μ
-  | .recv e => { c with s := sstep c.s (.recv e) }
-  | .take => if c.ended then c else { c with s := sstep c.s .take }
+def qstep (T : Change ι μ → Option (Change ι μ)) (i : ι) (c : QCfg ι μ) : QMove (Change ι μ) → QCfg ι μ
+  | .recv e => { c with s := sstep T c.s (.recv e) }
+  | .take => if c.ended then c else { c with s := sstep T c.s .take }
   | .hand =>
     match c.hand2, c.ended, c.s.offer with
     | none, false, some d =>
-      { c with s := sstep c.s .deliver, hand2 := (pullIdAccept i d).1, ended := (pullIdAccept i d).2 }
+      { c with s := sstep T c.s .deliver, hand2 := (pullIdAccept i d).1, ended := (pullIdAccept i d).2 }
     | _, _, _ => c
   | .deliver =>
     match c.hand2 with
     | some v => { c with hand2 := none, out := c.out ++ [v] }
     | none => c
 
-def qrun (i : ι) (c : QCfg ι μ) (ms : List (QMove (Change ι μ))) : QCfg ι μ := ms.foldl (qstep i) c
+def qrun (T : Change ι μ → Option (Change ι μ)) (i : ι) (c : QCfg ι μ) (ms : List (QMove (Change ι μ))) : QCfg ι μ :=
+  ms.foldl (qstep T i) c
 
 /-- Spec of PullID over the stream Pull delivers: the new values of the watched id's changes, in
 order, up to the first REMOVE (or nil value) of that id; and whether such a change was met. -/
@@ -118,22 +122,25 @@ def pullIdScan (i : ι) : List (Change ι μ) → List μ × Bool
 /-! ### several subscribers on one bus -/
 
 /-- A subscriber: `watch = none` is `Collection.Pull` (its consumer receives Pull's events), `some i` is
-`Collection.PullID i`. -/
+`Collection.PullID i`; `tr` is the transform of its Pull forwarder (its own read options: `some`, or
+`includeChange f` for `WithInclude f`). -/
 structure Sub (ι μ : Type) where
   watch : Option ι
+  tr : Change ι μ → Option (Change ι μ)
   q : QCfg ι μ
 
-def Sub.init (w : Option ι) (sd : List (Change ι μ)) : Sub ι μ := ⟨w, QCfg.init sd⟩
+def Sub.init (w : Option ι) (T : Change ι μ → Option (Change ι μ)) (sd : List (Change ι μ)) : Sub ι μ :=
+  ⟨w, T, QCfg.init sd⟩
 
 def subStep (s : Sub ι μ) (m : QMove (Change ι μ)) : Sub ι μ :=
   match s.watch with
-  | some i => { s with q := qstep i s.q m }
+  | some i => { s with q := qstep s.tr i s.q m }
   | none =>
     match m with
-    | .recv e => { s with q := { s.q with s := sstep s.q.s (.recv e) } }
-    | .take => { s with q := { s.q with s := sstep s.q.s .take } }
+    | .recv e => { s with q := { s.q with s := sstep s.tr s.q.s (.recv e) } }
+    | .take => { s with q := { s.q with s := sstep s.tr s.q.s .take } }
     | .hand => s
-    | .deliver => { s with q := { s.q with s := sstep s.q.s .deliver } }
+    | .deliver => { s with q := { s.q with s := sstep s.tr s.q.s .deliver } }
 
 def subRun (s : Sub ι μ) (ms : List (QMove (Change ι μ))) : Sub ι μ := ms.foldl subStep s
 
